@@ -52,8 +52,10 @@ type Subs = Vec<(String, A)>;
 pub enum A {
   Terms { field: String, size: Option<usize>, shard: Option<usize>, mdc: Option<u64>, missing: Option<String>, subs: Subs },
   Rare { field: String, maxdc: Option<u64>, size: Option<usize>, subs: Subs },
-  Range { field: String, fk: &'static str, keyed: bool, ranges: Vec<RangeA>, missing4: Option<i64>, subs: Subs },
-  Hist { field: String, fk: &'static str, iv4: i64, off4: Option<i64>, mdc: Option<u64>, ext4: Option<(i64, i64)>, hard8: Option<(i64, i64)>, missing4: Option<i64>, subs: Subs },
+  /// `date`: rendered as date_range (bounds as strings)
+  Range { field: String, fk: &'static str, date: bool, keyed: bool, ranges: Vec<RangeA>, missing4: Option<i64>, subs: Subs },
+  /// `date`: rendered as date_histogram with a fixed_interval in whole milliseconds over an i64 field
+  Hist { field: String, fk: &'static str, date: bool, iv4: i64, off4: Option<i64>, mdc: Option<u64>, ext4: Option<(i64, i64)>, hard8: Option<(i64, i64)>, missing4: Option<i64>, subs: Subs },
   Metric { kind: &'static str, field: String, fk: &'static str, missing4: Option<i64> },
   Card { field: String, fk: &'static str, missing: Option<String>, missing4: Option<i64>, threshold: Option<usize> },
   Pct { field: String, fk: &'static str, percents: Option<Vec<i64>>, missing4: Option<i64> },
@@ -203,7 +205,25 @@ pub fn gen_agg(r: &mut StdRng, depth: usize, cfg: &AggCfg) -> A {
           RangeA { key: if keyed_names { Some(format!("r{i}")) } else { None }, from8, to8 }
         })
         .collect();
-      A::Range { field: f.to_string(), fk, keyed: chance(r, 1, 3), ranges, missing4: gen_missing4(r, fk, lo, hi), subs: gen_subs(r, depth, cfg) }
+      A::Range { field: f.to_string(), fk, date: chance(r, 1, 4), keyed: chance(r, 1, 3), ranges, missing4: gen_missing4(r, fk, lo, hi), subs: gen_subs(r, depth, cfg) }
+    }
+    6 if chance(r, 1, 2) => {
+      // date_histogram: the i64 fields read as milliseconds, whole-millisecond interval / offset / bounds
+      let (f, fk, lo, hi) = NUM_FIELDS[*pick(r, &[0usize, 0, 1, 3])];
+      let iv4 = 4 * *pick(r, &[1i64, 2, 2, 3, 5]);
+      let off4 = opt(r, 1, 3, |r| 4 * r.gen_range(0..(iv4 / 4).max(2)));
+      let ext4 = opt(r, 1, 3, |r| {
+        let a = 4 * r.gen_range(lo - 3..=hi);
+        (a, a + 4 * r.gen_range(0..=6))
+      });
+      let mdc = match r.gen_range(0..4) {
+        0 => None,
+        1 => Some(0),
+        2 => Some(1),
+        _ => Some(r.gen_range(2..=3)),
+      };
+      let missing4 = opt(r, 1, 4, |r| 4 * r.gen_range(lo..=hi + 2));
+      A::Hist { field: f.to_string(), fk, date: true, iv4, off4, mdc, ext4, hard8: None, missing4, subs: gen_subs(r, depth, cfg) }
     }
     6..=8 => {
       let (f, fk, lo, hi) = num_field(r);
@@ -227,7 +247,7 @@ pub fn gen_agg(r: &mut StdRng, depth: usize, cfg: &AggCfg) -> A {
         2 => Some(1),
         _ => Some(r.gen_range(2..=3)),
       };
-      A::Hist { field: f.to_string(), fk, iv4, off4, mdc, ext4, hard8, missing4: gen_missing4(r, fk, lo, hi), subs: gen_subs(r, depth, cfg) }
+      A::Hist { field: f.to_string(), fk, date: false, iv4, off4, mdc, ext4, hard8, missing4: gen_missing4(r, fk, lo, hi), subs: gen_subs(r, depth, cfg) }
     }
     9 => A::Filter { f: gen_filter(r, 1, false, ""), subs: gen_subs(r, depth, cfg) },
     10 if cfg.composite => {
@@ -293,7 +313,19 @@ pub fn render_agg(a: &A) -> Value {
       }
       with_subs(v, subs)
     }
-    A::Range { field, fk, keyed, ranges, missing4, subs } => with_subs(
+    A::Range { field, fk, date: true, keyed, ranges, missing4, subs } => with_subs(
+      json!({"type": "date_range", "field": field, "keyed": keyed, "format": null, "missing": missing_num(fk, missing4),
+             "ranges": ranges.iter().map(|x| json!({"key": x.key, "from": x.from8.map(|v| format!("{}", v as f64 / 8.0)), "to": x.to8.map(|v| format!("{}", v as f64 / 8.0))})).collect::<Vec<_>>()}),
+      subs,
+    ),
+    A::Hist { field, date: true, iv4, off4, mdc, ext4, missing4, subs, .. } => with_subs(
+      json!({"type": "date_histogram", "field": field, "calendar_interval": null, "fixed_interval": format!("{}ms", iv4 / 4),
+             "offset": off4.map(|o| format!("{}ms", o / 4)), "format": null, "min_doc_count": mdc,
+             "extended_bounds": ext4.map(|(a, b)| json!({"min": format!("{}", a / 4), "max": format!("{}", b / 4)})),
+             "hard_bounds": null, "missing": missing4.map(|m| format!("{}", m / 4))}),
+      subs,
+    ),
+    A::Range { field, fk, keyed, ranges, missing4, subs, .. } => with_subs(
       json!({"type": "range", "field": field, "keyed": keyed, "missing": missing_num(fk, missing4),
              "ranges": ranges.iter().map(|x| json!({"key": x.key, "from": x.from8.map(|v| v as f64 / 8.0), "to": x.to8.map(|v| v as f64 / 8.0)})).collect::<Vec<_>>()}),
       subs,
@@ -381,11 +413,11 @@ pub fn abstract_agg(a: &A, dict: &mut Dict) -> Value {
              "ranges": ranges.iter().map(|x| json!({"key": x.key.clone().unwrap_or_default(), "hasfrom": x.from8.is_some(), "from8": x.from8.unwrap_or(0),
                                                      "hasto": x.to8.is_some(), "to8": x.to8.unwrap_or(0)})).collect::<Vec<_>>(),
              "hasmissing": m4(missing4).0, "missing4": m4(missing4).1, "subs": abstract_subs(subs, dict)}),
-    A::Hist { field, fk, iv4, off4, mdc, ext4, hard8, missing4, subs } => json!({"t": "hist", "f": field, "fk": fk, "iv4": iv4, "off4": off4.unwrap_or(0),
+    A::Hist { field, fk, date, iv4, off4, mdc, ext4, hard8, missing4, subs } => json!({"t": "hist", "f": field, "fk": fk, "iv4": iv4, "off4": off4.unwrap_or(0),
              "hasmdc": mdc.is_some(), "mdc": mdc.unwrap_or(0), "hasext": ext4.is_some(), "extmin4": ext4.map(|x| x.0).unwrap_or(0),
              "extmax4": ext4.map(|x| x.1).unwrap_or(0), "hashard": hard8.is_some(), "hardmin8": hard8.map(|x| x.0).unwrap_or(0),
              "hardmax8": hard8.map(|x| x.1).unwrap_or(0), "hasmissing": m4(missing4).0, "missing4": m4(missing4).1,
-             "subs": abstract_subs(subs, dict)}),
+             "rnd": if *date { "either" } else { "floor" }, "subs": abstract_subs(subs, dict)}),
     A::Metric { kind, field, fk, missing4 } => json!({"t": kind, "f": field, "fk": fk, "hasmissing": m4(missing4).0, "missing4": m4(missing4).1}),
     A::Card { field, fk, missing, missing4, .. } => {
       if let Some(m) = missing {
@@ -495,7 +527,9 @@ pub fn canon(a: &A, resp: &Value) -> Value {
   let want = match a {
     A::Terms { .. } => "terms",
     A::Rare { .. } => "rare_terms",
+    A::Range { date: true, .. } => "date_range",
     A::Range { .. } => "range",
+    A::Hist { date: true, .. } => "date_histogram",
     A::Hist { .. } => "histogram",
     A::Metric { kind, .. } => match *kind {
       "stats" => "stats",
